@@ -2,6 +2,7 @@ import UtilModel.Keyed.Corollaries2
 import UtilModel.Keyed.C07Retry
 import UtilModel.Keyed.ObsC07
 import UtilModel.Keyed.ObsC06f
+import UtilModel.Keyed.ObsC07c
 /-!
 # keyed — property theorems (C06, C07)
 
@@ -137,6 +138,16 @@ theorem removed_cancelled (es : List Ev) (s : St) (hr : model.run model.init es 
     cases hc : x.cancelled with
     | true => rfl
     | false => have := h3.ownc g y i x hy hx hc; simp [hnc] at this
+
+/-- **C07 (removal cancels), observable form.** Every observable trace of the model is accepted by the
+executable monitor `monC07c` (= `monC07a` × `monC06o` + one check): whenever no call is in progress and the
+history shows that the key of a routine is out of the set — removed at once, or removed with a delay that
+has expired by a quiescence point, and not requested since — or that the context was cleared, a probe of
+the routine's context finds it cancelled. The same monitor runs on the histories of the real code.
+(`monC07`'s clause is sharper: it also demands cancellation right after an overlapped removal's effects
+are known and tracks generations; for it only the state-level theorem above is proved.) -/
+theorem C07_obs_removed_cancelled (es : List Ev) (s : St) (hr : model.run model.init es = some s) :
+    monC07c.accepts (es.filterMap model.obs) = true := C07c_obs es s hr
 
 /-- the event that takes the record of a generation out of the map leaves the generation without a
 record -/
